@@ -141,6 +141,10 @@ pub struct Case {
     /// zoneinfo: which non-zone entries the directory also contains.
     #[serde(default)]
     pub decoys: u32,
+    /// Lock policy of this run: does a thread waiting for a write lock keep
+    /// new readers out (std leaves it unspecified; Linux's does)?
+    #[serde(default)]
+    pub writer_pref: bool,
 }
 
 #[derive(Clone, Debug, Default, PartialEq, Eq, Serialize, Deserialize)]
@@ -189,6 +193,13 @@ pub const BUNDLED_NAMES: &[&str] = &[
     "Etc/Unknown",
     "Pacific/Honolulu",
     "America/Sao_Paulo",
+    // Aliases: other names for the *same embedded data* as a name above.
+    // Each must come back under the spelling the tz database lists it with.
+    "US/Eastern",
+    "Asia/Calcutta",
+    "Etc/UTC",
+    "Australia/Hobart",
+    "US/Hawaii",
 ];
 
 pub const HOSTILE: &[&str] = &[
@@ -529,5 +540,7 @@ pub fn generate(rng: &mut Rng, tier: Tier, force_fault_free: Option<bool>) -> Ca
         0
     };
 
-    Case { backend, universe, initial, alias, mono, threads, settle, fault_free, io, decoys }
+    let writer_pref = g.rng.chance(1, 2);
+
+    Case { backend, universe, initial, alias, mono, threads, settle, fault_free, io, decoys, writer_pref }
 }
